@@ -128,6 +128,34 @@ def py_pred(p):
     return lambda em: f(em) or g(em)
 
 
+def assemble_plan(node):
+    """One document in three (chosen by its text) is not parsed whole: -> (document without one subtree, path of the subtree's
+    parent, position among the parent's element children, the subtree), or None."""
+    import zlib
+    if node[0] == WRAPPER or not node[4]:
+        return None
+    h = zlib.crc32(render(node).encode('utf-8', 'replace'))
+    if h % 3 != 0:
+        return None
+    spots = []
+
+    def walk(n, path):
+        for j, k in enumerate(n[4]):
+            spots.append((path, j))
+            walk(k, path + [j])
+    walk(node, [])
+    path, j = spots[(h // 3) % len(spots)]
+
+    def cut(n, p):
+        tag, attrs, classes, texts, kids = n
+        if not p:
+            return [tag, attrs, classes, texts, kids[:j] + kids[j + 1:]], kids[j]
+        new, x = cut(kids[p[0]], p[1:])
+        return [tag, attrs, classes, texts, kids[:p[0]] + [new] + kids[p[0] + 1:]], x
+    without, x = cut(node, path)
+    return without, path, j, x
+
+
 class Built(object):
     """The document parsed by the real library; element <-> pre-order index."""
 
@@ -146,7 +174,40 @@ class Built(object):
                 if i:
                     self.parser.getElementById(i)
             self.parser.getElementsByTagName(old.tagName)
-        self.parser.parseStr(html)
+        plan = assemble_plan(node) if parser_cls is None else None
+        if plan is None:
+            self.parser.parseStr(html)
+        else:
+            # the document is reached by an edit: parsed without one subtree, searched (whatever a search may remember is
+            # now about the smaller document), then the subtree is inserted through the DOM API at its place
+            without, path, j, xnode = plan
+            self.parser.parseStr(render(without))
+            parent = self.parser.getRoot()
+            for k in path:
+                parent = parent.children[k]
+            try:
+                self.parser.getAllNodes()
+                self.parser.filter(tagname=xnode[0])
+                self.parser.filterOr(tagname=xnode[0], id='nosuch')
+                self.parser.find(tagname=xnode[0])
+                self.parser.getElementsByTagName(xnode[0])
+                for c in xnode[2][:2]:
+                    self.parser.getElementsByClassName(c)
+                for k, v in xnode[1][:2]:
+                    self.parser.getElementsByAttr(k, v)
+                parent.getAllChildNodes()
+                parent.getElementsByTagName(xnode[0])
+            except Exception:
+                pass
+            x = AHP.AdvancedHTMLParser.createElementFromHTML(render(xnode))
+            kids = list(parent.children)
+            if j < len(kids):
+                parent.insertBefore(x, kids[j])
+            elif kids:
+                parent.insertAfter(x, kids[-1])
+            else:
+                parent.appendChild(x)
+        self.assembled = plan is not None
         self.els = []
         self._walk(self.parser.getRoot())
         self.idx = {e.uid: i for i, e in enumerate(self.els)}
@@ -785,7 +846,8 @@ class Check(PropCheck):
             '__contains/__icontains), filter/filterAnd/filterOr/filterAll/filterAllAnd/filterAllOr (eq, ne, contains, icontains, in)). '
             'Exhaustive: every ordered tree of <= 3 (quick) / <= 4 (thorough) elements over 2 tag names x the subsets of 2 classes '
             'with a fixed battery on every receiver; random: documents of 1-80 elements with heavy reuse of ids, names, classes, '
-            'values, text. Non-trivial: >= 2 elements and at least one query with a non-empty answer; distinct by canonical JSON')
+            'values, text. One single-root document in three is not parsed whole: it is parsed without one subtree, searched, and the '
+            'subtree is then inserted at its place through insertBefore / insertAfter / appendChild. Non-trivial: >= 2 elements and at least one query with a non-empty answer; distinct by canonical JSON')
     assumptions = ['attribute values are strings; the boolean attribute names, class and style are not queried as attributes',
                    'ASCII text and values (str.lower is modelled on ASCII)']
 
@@ -880,6 +942,7 @@ class Check(PropCheck):
             fs.add('several-roots')
         if any(len(set(e['classes'])) < len(e['classes']) for e in flat.E):
             fs.add('doc-repeated-class-name')
+        fs.add('document:' + ('reached-by-an-insertion-after-searches' if assemble_plan(d['doc']) is not None else 'parsed-whole'))
         for (r, o), e in zip(d['queries'], exp):
             rk = 'P-root=' if (r[0] == 'P' and len(r) > 1) else r[0]
             fs.add('recv:' + rk)
